@@ -1,7 +1,8 @@
 """C07 — encoder API contract (asn_encode, asn_encode_to_buffer, asn_encode_to_new_buffer).
 Theorems: coq/Props/Properties_C07.v over coq/Rt/AppApi.v (wrappers, callbacks, errno
 mapping, UPER complete-encoding rule; unbounded over every well-behaved inner encoder and
-every chunk list) and the model encoders of coq/Rt.
+every chunk list), the model encoders of coq/Rt, and coq/Rt/XerEnc.v (the XER encoders with
+the ASN__CALLBACK / ASN__TEXT_INDENT size accounting made explicit; any nesting depth).
 Tie: for generated modules and values, all five encoders of the C built from /repo:
   (i)   the output callback fails at EVERY invocation index k: ret -1, EIO, calls k+1,
         delivered bytes = the first k chunks of the fault-free run, process survives;
@@ -11,17 +12,34 @@ Tie: for generated modules and values, all five encoders of the C built from /re
   (iv)  un-encodable structures: constraint-violating values (transported as DER),
         partially initialised structures (CHOICE present 0, NULL mandatory pointers,
         NULL list elements, all-zero structures): -1 with an errno, never a crash.
+Swept dimensions besides the random corpus (lib/c07_util.py): nesting depth 1..40 of recursive
+types (C07D), the internal boundaries of the encoders (C07B: DER/OER length-of-length edges,
+the 32-octet scratch of the PER bit writer at every put width, the XER hex-dump rows), totals
+2^k-1, 2^k, 2^k+1 for asn_encode_to_new_buffer, extension additions (C07E).
 Each observed run is compared with the extracted model of the wrappers fed with the
-observed fault-free trace (faithfulness) and with the property evaluated directly in
-Python on the C output (oracle)."""
-import sys, os, re
+observed fault-free trace (faithfulness), with the model encoders' bytes (DER, UPER, OER) and
+CHUNK LISTS (XER), and with the property evaluated directly in Python on the C output (oracle)."""
+import sys, os, re, zlib
 sys.path.insert(0, os.path.join(os.path.dirname(os.path.abspath(__file__)), "..", "lib"))
 from vlib import *
 from modcorpus import *
+from c07_util import *
 
 INC = os.path.join(HARNESS, "moddrv_c07.inc")
 SYNS = ["der", "uper", "oer", "xer", "cxer"]
-MAXHEX = 400          # values <= 200 bytes of DER: fault index x buffer size is quadratic
+MAXHEX = 400          # values <= 200 bytes of DER get every fault index and every buffer size; larger ones a directed sample
+ALL_K = 400           # up to this many callback invocations: every fault index
+ALL_SIZES = 640      # up to this total: every buffer size
+
+
+import time as _time
+_T0 = _time.time()
+
+
+def dbg(msg):
+    if os.environ.get("VERIF_DEBUG"):
+        sys.stderr.write("[%6.1f] %s\n" % (_time.time() - _T0, msg))
+        sys.stderr.flush()
 
 
 def fnv(b):
@@ -44,6 +62,20 @@ def kv(seg):
     return d
 
 
+def ranges(xs):
+    """sorted distinct non-negative numbers as the driver's list syntax a-b,c,..."""
+    xs = sorted(set(x for x in xs if x >= 0))
+    out = []
+    i = 0
+    while i < len(xs):
+        j = i
+        while j + 1 < len(xs) and xs[j + 1] == xs[j] + 1:
+            j += 1
+        out.append("%d-%d" % (xs[i], xs[j]) if j > i else "%d" % xs[i])
+        i = j + 1
+    return ",".join(out)
+
+
 # ---------------------------------------------------------------- hand-made modules
 
 EXTRA_TEXT = """C07X DEFINITIONS AUTOMATIC TAGS ::= BEGIN
@@ -57,6 +89,8 @@ EXTRA_TEXT = """C07X DEFINITIONS AUTOMATIC TAGS ::= BEGIN
   I7 ::= INTEGER (0..7)
   SV ::= SET OF INTEGER (0..7)
   BP ::= BIT STRING (SIZE(24))
+  IN ::= INTEGER
+  Int12345 ::= INTEGER
 END
 """
 # (type, DER of a value)
@@ -74,11 +108,43 @@ EXTRA_VALUES = [
     # shorter than the fixed size: BIT_STRING_encode_oer pads with zero octets (1, 3 and 0 octets of padding)
     ("BP", "03030000aa"), ("BP", "030100"), ("BP", "030400aabbcc"),
 ]
+# small BASIC-XER totals 2^k-1..2^k+1 that the SEQUENCE of the boundary module cannot reach: <IN>ddd</IN>\n = 10 + digits
+for _tn, _frame in (("IN", 10), ("Int12345", 22)):
+    for _total in (15, 16, 17, 31, 32, 33):
+        _d = _total - _frame
+        if 1 <= _d <= 18:
+            _v = 10 ** (_d - 1) + 7 if _d > 1 else 7
+            _c = _v.to_bytes(int_len(_v), "big", signed=True)
+            EXTRA_VALUES.append((_tn, "02%02x%s" % (len(_c), _c.hex())))
+
+EXT_TEXT = """C07E DEFINITIONS AUTOMATIC TAGS ::= BEGIN
+  EX ::= SEQUENCE { a INTEGER (0..7), ..., b OCTET STRING OPTIONAL, c BOOLEAN OPTIONAL }
+  EC ::= CHOICE { a INTEGER (0..7), ..., b OCTET STRING, c NULL }
+END
+"""
+EX_ETY = "E64{i2[0,7,0]}{o6[0,*,0]b10}"
+EC_ETY = "H{i2[0,7,0]}{o6[0,*,0]n10}"
 
 
-def extra_module():
-    names = ["EO", "PO", "NU", "SN", "RC", "SS", "FO", "I7", "SV", "BP"]
-    return {"name": "C07X", "default": "AUTOMATIC", "defs": [(n, None) for n in names], "trees": {}, "text": EXTRA_TEXT}
+def hand_module(name, text, names):
+    return {"name": name, "default": "AUTOMATIC", "defs": [(n, None) for n in names], "trees": {}, "text": text}
+
+
+def ext_values(tier):
+    """[(type, ety, model value, xv)]: extension additions present/absent, open-type lengths around 127/128, 255/256"""
+    out = []
+    ns = [0, 1, 2, 125, 126, 127, 128, 129, 254, 255, 256] + ([16382, 16383, 16384, 16385] if tier != "quick" else [])
+    out.append(("EX", EX_ETY, "S{I5;__}", "S{a:I5;}"))
+    out.append(("EX", EX_ETY, "S{I0;_!T}", "S{a:I0;c:B1}"))
+    for n in ns:
+        b = pat(n).hex()
+        out.append(("EX", EX_ETY, "S{I%d;!O%s;_}" % (n % 8, b), "S{a:I%d;b:O%s;}" % (n % 8, b)))
+        if n in (0, 126, 127, 128, 256):
+            out.append(("EX", EX_ETY, "S{I%d;!O%s;!F}" % (n % 8, b), "S{a:I%d;b:O%s;c:B0}" % (n % 8, b)))
+        out.append(("EC", EC_ETY, "C1:O%s;" % b, "Cb:O%s;" % b))
+    out.append(("EC", EC_ETY, "C0:I3;", "Ca:I3;"))
+    out.append(("EC", EC_ETY, "C2:N", "Cc:N"))
+    return out
 
 
 # ---------------------------------------------------------------- constraint-violating values
@@ -136,24 +202,69 @@ class Ctx:
     def __init__(self, run, model):
         self.run = run
         self.model = model
-        self.mlines = []          # model command lines
-        self.mexpect = []         # (replay dict, expected line from the C)
 
 
-def check_sweep(ctx, m, tn, der, syn, out, model_bytes, label):
-    """out: the `sweep` result line.  model_bytes: hex | 'NONE' | None (no model for this syntax)."""
+def split_chunks(sizes, data):
+    chunks = []
+    off = 0
+    for s in sizes:
+        chunks.append(data[off:off + s])
+        off += s
+    return chunks
+
+
+WORK_SWEEP_MAX = 60000     # encoder invocations of one call above which the fault/size sweeps of that (value, syntax) are not run
+
+
+def work_check(ctx, it, syn, line, seg):
+    """oracle, 'never a non-terminating call' made finite: the number of type-encoder invocations of ONE
+    asn_encode call is bounded by a polynomial in the value (TLVs x nesting).  Returns True if the
+    sweeps of this (value, syntax) are to be skipped (the call is too expensive to repeat hundreds of times)."""
     run = ctx.run
-    line = "sweep %s der %s %s" % (tn, der, syn)
-    rep = {"module": m["text"], "type": tn, "der": der, "syntax": syn, "command_line": line, "c": out[:1500], "label": label}
+    h = kv(seg)
+    died = "DIED exit=96" in seg
+    if "shape" not in it:
+        it["shape"] = tlv_shape(bytes.fromhex(it["der"]))
+    n, d = it["shape"]
+    bound = 4 * n * (d + 2) + 64
+    work = None if died else int(h.get("work", "0"))
+    if died or work > bound:
+        xc = int(h.get("xc", "0"))
+        rep = {"module": it["m"]["text"], "type": it["tn"], "der": it["der"][:4000], "syntax": syn, "command_line": line[:4000], "c": seg[:300],
+               "tlvs": n, "nesting": d, "bound": bound, "work": "more than 3000000 (the driver's limit)" if died else work, "explicitly_tagged_choices_nested": xc}
+        if syn == "der" and xc >= 6:
+            run.known_finding("C07-der-tagged-choice-exponential", rep)
+            run.count("work_exponential_der")
+        else:
+            run.violation("oracle:bounded_work(%s)" % syn, dict(rep, what="one encoder call made %s type-encoder invocations for a value of %d TLVs nested %d deep (bound %d): not a terminating call in practice" % (rep["work"], n, d, bound)))
+    return died or work > WORK_SWEEP_MAX
+
+
+def check_sweep(ctx, it, syn, line, out, ks):
+    """out: the `sweep` result line; ks: the fault indices asked for (None = all).
+    Returns (ret, errno, chunks) or None."""
+    run = ctx.run
+    m, tn, der, label = it["m"], it["tn"], it["der"], it["label"]
+    model_bytes = it["mb"].get(syn)
+    rep = {"module": m["text"], "type": tn, "der": der[:4000], "syntax": syn, "command_line": line[:4000], "c": out[:1500], "label": label}
+    if it.get("depth"):
+        rep["depth"] = it["depth"]
     segs = out.split(" | ")
     head = kv(segs[0])
+    if "DIED exit=96" in segs[0]:
+        work_check(ctx, it, syn, line, segs[0])
+        return None
     if "DIED" in segs[0] or "ret" not in head:
         run.violation("crash:encode(%s)" % syn, dict(rep, what="the fault-free encoder call died or gave no result"))
         return None
+    if not it["big"]:
+        work_check(ctx, it, syn, line, segs[0])
     ret, n = int(head["ret"]), int(head["n"])
     sizes = [] if head["sizes"] == "-" else [int(x) for x in head["sizes"].split(",")]
     data = unhex(head["hex"])
     run.count("enc_%s_%s" % (syn, "ok" if ret >= 0 else head["errno"]))
+    if it.get("depth"):
+        run.count("depth_%s_%s" % (syn, "1-8" if it["depth"] <= 8 else "9-16" if it["depth"] <= 16 else "17-40"))
     # size accounting (oracle on the C alone)
     if int(head["calls"]) != n or len(sizes) != n or sum(sizes) != len(data):
         run.violation("oracle:trace", dict(rep, what="inconsistent trace (calls/sizes/bytes)"))
@@ -167,68 +278,83 @@ def check_sweep(ctx, m, tn, der, syn, out, model_bytes, label):
         exp = "NONE" if model_bytes == "NONE" else model_bytes
         got = "NONE" if ret < 0 else (data.hex() if data else "-")
         if exp != got and not (exp == "" and got == "-"):
-            if label == "valid":
-                run.violation("correspondence:Rt.%s" % syn, dict(rep, what="C encoder result differs from the model", model=exp, got=got), no_input=(ret < 0 or ret == len(data)))
+            if label != "violating":
+                run.violation("correspondence:Rt.%s" % syn, dict(rep, what="C encoder result differs from the model", model=exp[:3000], got=got[:3000]), no_input=(ret < 0 or ret == len(data)))
             elif exp == "NONE":
-                run.violation("correspondence:unencodable(%s)" % syn, dict(rep, what="the model cannot encode this value (None) but the C returned %d" % ret, model=exp, got=got), no_input=True)
+                run.violation("correspondence:unencodable(%s)" % syn, dict(rep, what="the model cannot encode this value (None) but the C returned %d" % ret, model=exp, got=got[:3000]), no_input=True)
             else:
                 run.count("invalid_value_encoded_differently_%s" % syn)
-    # callback failure at every index
-    chunks = []
-    off = 0
+    # callback failure at the fault indices
+    chunks = split_chunks(sizes, data)
+    states = fnv_states(chunks)
+    offs = [0]
     for s in sizes:
-        chunks.append(data[off:off + s])
-        off += s
-    for k in range(n):
-        run.case("%s k=%d" % (line, k))
-        if 1 + k >= len(segs):
+        offs.append(offs[-1] + s)
+    klist = list(range(n)) if ks is None else [k for k in ks if 0 <= k < n]
+    for j, k in enumerate(klist):
+        run.case("%s k=%d" % (line[:200], k))
+        if 1 + j >= len(segs):
             break                 # the child ended at an earlier k (already reported)
-        seg = segs[1 + k]
+        seg = segs[1 + j]
         d = kv(seg)
-        rk = dict(rep, k=k, c=seg, replay_cmd="trace %s der %s %s %d" % (tn, der, syn, k))
+        rk = dict(rep, k=k, c=seg, replay_cmd="trace %s der %s %s %d" % (tn, der[:4000], syn, k))
         if "DIED" in seg:
             run.violation("crash:cbfail(%s)" % syn, dict(rk, what="the process died (abort/signal/sanitizer) when the callback failed at invocation %d" % k))
             continue
-        want = "ret=-1 errno=EIO calls=%d d=%d:%s" % (k + 1, sum(sizes[:k]), fnv(b"".join(chunks[:k])))
-        got = "ret=%s errno=%s calls=%s d=%s" % (d.get("ret"), d.get("errno"), d.get("calls"), d.get("d"))
+        want = "k=%d ret=-1 errno=EIO calls=%d d=%d:%s" % (k, k + 1, offs[k], states[k])
+        got = "k=%s ret=%s errno=%s calls=%s d=%s" % (d.get("k"), d.get("ret"), d.get("errno"), d.get("calls"), d.get("d"))
         if got != want:
             run.violation("oracle:cb_failure_eio(%s)" % syn, dict(rk, what="callback failing at invocation %d: expected [%s] got [%s]" % (k, want, got)))
         run.count("cbfail_%s" % syn)
-    return ret, chunks
+    if len(segs) - 1 > len(klist) and "DIED" not in out:
+        run.violation("oracle:trace", dict(rep, what="more fault runs reported than asked for"))
+    return ret, head["errno"], chunks
 
 
-def check_bufsweep(ctx, m, tn, der, syn, out, ret, chunks, label):
+def fitted(chunks, s):
+    """what overrun_encoder_cb leaves in a buffer of s octets pre-filled with a5"""
+    buf = bytearray(b"\xa5" * s)
+    off = 0
+    for c in chunks:
+        if off + len(c) > s:
+            break
+        buf[off:off + len(c)] = c
+        off += len(c)
+    return bytes(buf)
+
+
+def check_bufsweep(ctx, it, syn, line, out, ret, chunks, sizes):
     run = ctx.run
-    total = sum(len(c) for c in chunks)
-    line = "bufsweep %s der %s %s %d" % (tn, der, syn, total + 1)
-    rep = {"module": m["text"], "type": tn, "der": der, "syntax": syn, "command_line": line, "label": label}
+    m, tn, der, label = it["m"], it["tn"], it["der"], it["label"]
+    rep = {"module": m["text"], "type": tn, "der": der[:4000], "syntax": syn, "command_line": line[:4000], "label": label}
     segs = out.split(" | ")
     if "DIED" in out and "sig=6" not in out:
         bad = [sg for sg in segs if "DIED" in sg][0]
-        run.violation("crash:to_buffer(%s)" % syn, dict(rep, c=bad, replay_cmd="tobuf7 %s der %s %s %s" % (tn, der, syn, kv(bad).get("s", "?")),
-                                                      what="the process died in asn_encode_to_buffer (sanitizer report: write beyond the buffer, or signal) at [%s]" % bad))
+        run.violation("crash:to_buffer(%s)" % syn, dict(rep, c=bad[:300], replay_cmd="tobuf7 %s der %s %s %s" % (tn, der[:4000], syn, kv(bad).get("s", "?")),
+                                                      what="the process died in asn_encode_to_buffer (sanitizer report: write beyond the buffer, or signal) at [%s]" % bad[:300]))
         return
-    if len(segs) != total + 2:
+    if len(segs) != len(sizes):
         run.violation("oracle:to_buffer(%s)" % syn, dict(rep, what="unexpected driver output", c=out[:800]))
         return
-    for s, seg in enumerate(segs):
-        run.case("%s s=%d" % (line, s))
+    # the chunks that fit, then untouched filler: the fitted prefix changes only at chunk boundaries
+    # (sizes ascend: the number of chunks that fit is monotone; crc32 is continued from the prefix's)
+    pcrc, poff = [0], [0]
+    for c in chunks:
+        pcrc.append(zlib.crc32(c, pcrc[-1]))
+        poff.append(poff[-1] + len(c))
+    idx = 0
+    for s, seg in zip(sizes, segs):
+        while idx < len(chunks) and poff[idx + 1] <= s:
+            idx += 1
+        run.case("%s s=%d" % (line[:200], s))
         d = kv(seg)
-        rk = dict(rep, size=s, c=seg, replay_cmd="tobuf7 %s der %s %s %d" % (tn, der, syn, s))
+        rk = dict(rep, size=s, c=seg, replay_cmd="tobuf7 %s der %s %s %d" % (tn, der[:4000], syn, s))
         if "DIED" in seg:
             run.violation("crash:to_buffer(%s)" % syn, dict(rk, what="the process died in asn_encode_to_buffer with buffer size %d (write beyond the buffer, abort or signal)" % s))
             continue
-        # the chunks that fit, then untouched filler
-        buf = bytearray(b"\xa5" * s)
-        off = 0
-        for c in chunks:
-            if off + len(c) > s:
-                break
-            buf[off:off + len(c)] = c
-            off += len(c)
         if ret >= 0:
-            want = "ret=%d errno=E0 h=%s" % (ret, fnv(bytes(buf)))
-            got = "ret=%s errno=%s h=%s" % (d.get("ret"), d.get("errno"), d.get("h"))
+            want = "s=%d ret=%d errno=E0 h=%08x" % (s, ret, zlib.crc32(b"\xa5" * (s - poff[idx]), pcrc[idx]))
+            got = "s=%s ret=%s errno=%s h=%s" % (d.get("s"), d.get("ret"), d.get("errno"), d.get("h"))
         else:
             want = "ret=-1"
             got = "ret=%s" % d.get("ret")
@@ -239,18 +365,27 @@ def check_bufsweep(ctx, m, tn, der, syn, out, ret, chunks, label):
         run.count("tobuf_%s" % syn)
 
 
-def check_newbuf(ctx, m, tn, der, syn, out, ret, chunks, label):
+def check_newbuf(ctx, it, syn, line, out, ret, chunks):
     run = ctx.run
-    line = "newbuf %s der %s %s" % (tn, der, syn)
-    rep = {"module": m["text"], "type": tn, "der": der, "syntax": syn, "command_line": line, "c": out[:800], "label": label}
-    run.case(line)
+    m, tn, der, label = it["m"], it["tn"], it["der"], it["label"]
+    rep = {"module": m["text"], "type": tn, "der": der[:4000], "syntax": syn, "command_line": line[:4000], "c": out[:800], "label": label}
+    run.case(line[:200])
     d = kv(out)
     data = b"".join(chunks)
+    if "DIED" in out or "ret" not in d:
+        run.violation("crash:new_buffer(%s)" % syn, dict(rep, total=len(data), what="the process died in asn_encode_to_new_buffer (abort, signal or sanitizer report) for an encoding of %d octets" % len(data)))
+        return
     if ret >= 0:
-        want = "ret=%d buf=%s errno=E0" % (ret, data.hex() if data else "-")
+        want = "ret=%d buf=%d:%08x errno=E0" % (ret, len(data), zlib.crc32(data))
         got = "ret=%s buf=%s errno=%s" % (d.get("ret"), d.get("buf"), d.get("errno"))
         if want != got:
             run.violation("oracle:new_buffer_exact(%s)" % syn, dict(rep, what="expected [%s] got [%s]" % (want[:300], got[:300])))
+        # the growth rule (theorem C07_new_buffer_capacity): the least 16 * 2^j strictly above the total
+        cap = 16
+        while cap <= len(data):
+            cap *= 2
+        if d.get("cap") != str(cap):
+            run.violation("correspondence:NewBufCap(%s)" % syn, dict(rep, total=len(data), what="the allocation behind the returned buffer has %s octets; the model of dynamic_encoder_cb (least 16*2^j strictly above the total %d) says %d" % (d.get("cap"), len(data), cap)), no_input=True)
     else:
         if d.get("ret") != "-1" or d.get("errno") in ("E0", "EIO", None):
             run.violation("oracle:new_buffer_exact(%s)" % syn, dict(rep, what="failing encoder: expected ret=-1 with an errno, got [%s]" % out[:200]))
@@ -258,17 +393,21 @@ def check_newbuf(ctx, m, tn, der, syn, out, ret, chunks, label):
             # asn_application.h: "On failure: (.buffer) is NULL" (theorem C07_new_buffer_null_on_failure)
             run.violation("oracle:new_buffer_null_on_failure(%s)" % syn, dict(rep, what="asn_encode_to_new_buffer failed (ret=-1) but returned a non-NULL buffer: [%s]" % out[:200]))
     run.count("newbuf_%s" % syn)
+    t = len(data)
+    if ret >= 0 and t >= 15 and ((t - 1) & (t - 2) == 0 or t & (t - 1) == 0 or (t + 1) & t == 0):
+        run.count("newbuf_total_pow2_%s" % syn)
+        run.count("newbuf_total_%s" % ("2^k-1" if (t + 1) & t == 0 else "2^k" if t & (t - 1) == 0 else "2^k+1"))
 
 
 def check_battery(ctx, m, tn, line, out):
     """`mut` / `zero` result: partially initialised structure through the three entry points"""
     run = ctx.run
-    rep = {"module": m["text"], "type": tn, "command_line": line, "c": out[:1200]}
+    rep = {"module": m["text"], "type": tn, "command_line": line[:4000], "c": out[:1200]}
     segs = out.split(" | ")
     kind = kv(segs[0]).get("kind", "?")
     for seg in segs[1:]:
         syn = seg.split()[0]
-        run.case(line + " " + syn)
+        run.case(line[:200] + " " + syn)
         run.count("partial_%s_%s" % (kind, syn))
         if "DIED" in seg:
             run.violation("crash:partial(%s,%s)" % (kind, syn), dict(rep, segment=seg, what="the process died encoding a partially initialised structure (%s) with %s" % (kind, syn)))
@@ -315,47 +454,131 @@ def model_script(syn, ret, chunks, uper_zero):
     return "%d %s %s" % (bits, ending, ",".join(c.hex() if c else "e" for c in cs) or "-")
 
 
-def model_part(ctx, items):
-    """items: (replay, syn, ret, errno, chunks, uper_zero).  The extracted wrappers (asn_encode with the
-    fault oracle at every k, asn_encode_to_buffer at every size, asn_encode_to_new_buffer) are fed with the
-    script reconstructed from the C's fault-free trace; their predictions must equal what the C did
+def pick_ks(n, rng, full):
+    if full or n <= 24:
+        return list(range(n))
+    return sorted(set([0, 1, 2, n - 2, n - 1] + [rng.below(n) for _ in range(8)]))
+
+
+def pick_sizes(chunks, total, rng, full):
+    if full or total <= 40:
+        return list(range(total + 2))
+    xs = {0, 1, total - 1, total, total + 1}
+    off = 0
+    bounds = []
+    for c in chunks:
+        off += len(c)
+        bounds.append(off)
+    for _ in range(6):
+        b = rng.choice(bounds)
+        xs.update([b - 1, b, b + 1])
+    for _ in range(4):
+        xs.add(rng.below(total + 1))
+    return sorted(x for x in xs if 0 <= x <= total + 1)
+
+
+def model_lines_api(items, rng):
+    """items: (replay, syn, ret, errno, chunks, uper_zero, full).  The extracted wrappers (asn_encode with the
+    fault oracle at k, asn_encode_to_buffer at a size, asn_encode_to_new_buffer) are fed with the script
+    reconstructed from the C's fault-free trace; their predictions must equal what the C did
     (Python recomputes the C side's canonical line from the sweep data already checked above)."""
-    run = ctx.run
     lines, expect = [], []
-    for rep, syn, ret, errno, chunks, uz in items:
+    for rep, syn, ret, errno, chunks, uz, full in items:
         sc = model_script(syn, ret, chunks, uz)
         n = len(chunks)
         total = sum(len(c) for c in chunks)
         data = b"".join(chunks)
         lines.append("c07_encode %s -1" % sc)
         expect.append((rep, "ret=%d errno=%s calls=%d hex=%s" % (ret, errno if ret < 0 else "E0", n, data.hex() or "-")))
-        for k in range(n):
+        for k in pick_ks(n, rng, full):
             lines.append("c07_encode %s %d" % (sc, k))
             expect.append((rep, "ret=-1 errno=EIO calls=%d hex=%s" % (k + 1, b"".join(chunks[:k]).hex() or "-")))
-        for s in range(total + 2):
-            buf = bytearray(b"\xa5" * s)
-            off = 0
-            for c in chunks:
-                if off + len(c) > s:
-                    break
-                buf[off:off + len(c)] = c
-                off += len(c)
+        for s in pick_sizes(chunks, total, rng, full):
             lines.append("c07_tobuf %s %d" % (sc, s))
-            expect.append((rep, "ret=%d errno=%s oob=0 buf=%s" % (ret, errno if ret < 0 else "E0", bytes(buf).hex() or "-")))
-        lines.append("c07_newbuf %s -1" % sc)
-        if ret >= 0:
-            expect.append((rep, "ret=%d errno=E0 buf=%s" % (ret, data.hex() or "-")))
-        else:
-            expect.append((rep, "ret=-1 errno=%s buf=NULL" % errno))      # (.buffer) is NULL on failure (check_newbuf saw it on the C)
-    rc, mo, me = run_lines(ctx.model, lines, timeout=900)
-    if rc != 0 or len(mo) != len(lines):
-        raise RuntimeError("model driver failed: rc=%s lines=%d/%d %s" % (rc, len(mo), len(lines), me[-500:]))
+            expect.append((rep, "ret=%d errno=%s oob=0 buf=%s" % (ret, errno if ret < 0 else "E0", fitted(chunks, s).hex() or "-")))
+        if total <= 6000:
+            lines.append("c07_newbuf %s -1" % sc)
+            if ret >= 0:
+                expect.append((rep, "ret=%d errno=E0 buf=%s" % (ret, data.hex() or "-")))
+            else:
+                expect.append((rep, "ret=-1 errno=%s buf=NULL" % errno))      # (.buffer) is NULL on failure (check_newbuf saw it on the C)
+    return lines, expect
+
+
+def model_lines_xer(items, rng):
+    """items: (replay, can, tag, xv, ret, errno, chunks, full).  The modelled XER encoder (Rt/XerEnc.v) run through the
+    modelled asn_encode: the SAME chunk list as the C (sizes and bytes), the same result; faults at some k;
+    for small values also the two buffer entry points."""
+    lines, expect = [], []
+    for rep, can, tag, xv, ret, errno, chunks, full in items:
+        n = len(chunks)
+        total = sum(len(c) for c in chunks)
+        data = b"".join(chunks)
+        pre = "%d %s %s" % (can, tag, xv)
+        lines.append(("c07_xer %s -1" if n <= 1200 else "c07_xerfast %s") % pre)
+        expect.append((rep, "ret=%d errno=%s calls=%d sizes=%s hex=%s" % (ret, errno if ret < 0 else "E0", n, ",".join(str(len(c)) for c in chunks) or "-", data.hex() or "-")))
+        ks = pick_ks(n, rng, full and n <= 40)
+        if n > 40:
+            ks = rng.shuffle(ks)[:4 if n <= 1200 else 1 if n <= 4000 else 0]
+        for k in ks:
+            lines.append("c07_xer %s %d" % (pre, k))
+            expect.append((rep, "ret=-1 errno=EIO calls=%d sizes=%s hex=%s" % (k + 1, ",".join(str(len(c)) for c in chunks[:k]) or "-", b"".join(chunks[:k]).hex() or "-")))
+        if total <= 3000:
+            for s in rng.shuffle(pick_sizes(chunks, total, rng, False))[:6]:
+                lines.append("c07_xer_tobuf %s %d" % (pre, s))
+                expect.append((rep, "ret=%d errno=%s oob=0 buf=%s" % (ret, errno if ret < 0 else "E0", fitted(chunks, s).hex() or "-")))
+            lines.append("c07_xer_newbuf %s" % pre)
+            expect.append((rep, ("ret=%d errno=E0 buf=%s" % (ret, data.hex() or "-")) if ret >= 0 else ("ret=-1 errno=%s buf=NULL" % errno)))
+    return lines, expect
+
+
+def run_model(ctx, lines, expect, kindf, what):
+    """the model batch in several processes; every line must equal the C's canonical line"""
+    run = ctx.run
+    if not lines:
+        return
+    mo = model_batch(ctx, lines)
     for l, o, (rep, want) in zip(lines, mo, expect):
         run.count("model_" + l.split()[0])
+        run.case("model " + l[:160])
         if o != want:
-            run.violation("correspondence:AppApi(%s)" % l.split()[0],
-                          dict(rep, what="the extracted model of the wrappers, fed with the C's fault-free trace, predicts a different result than the C produced",
-                               model_command=l[:600], model=o[:600], c_canonical=want[:600]), no_input=True)
+            run.violation(kindf(l), dict(rep, what=what, model_command=l[:1500], model=o[:1500], c_canonical=want[:1500]), no_input=True)
+
+
+def model_batch(ctx, lines):
+    """the model driver on the lines, dealt round-robin to several processes (expensive lines come in runs)"""
+    nproc = 8 if len(lines) >= 64 else 1
+    jobs = [(ctx.model, lines[i::nproc]) for i in range(nproc)]
+    jobs = [j for j in jobs if j[1]]
+    res = par_run(jobs, os.path.join(scratch(), "c07model"), width=nproc, big_stack=True)
+    mo = [None] * len(lines)
+    for i, ((rc, out, err), (_b, ls)) in enumerate(zip(res, jobs)):
+        if rc != 0 or len(out) != len(ls):
+            raise RuntimeError("model driver failed: rc=%s lines=%d/%d %s" % (rc, len(out), len(ls), err[-500:]))
+        mo[i::nproc] = out
+    return mo
+
+
+def run_mods(ctx, batches, name, piece=120):
+    """batches: [(module, lines)] -> [output lines]; the drivers run side by side, a module's lines in pieces
+    (several processes of the same driver); a driver that dies is a violation (every encoder call of the
+    C07 commands runs in a child of its own)"""
+    run = ctx.run
+    jobs, where = [], []
+    for bi, (m, ls) in enumerate(batches):
+        for i in range(0, len(ls), piece):
+            jobs.append((m["exe"], ls[i:i + piece]))
+            where.append((bi, i))
+    res = par_run(jobs, os.path.join(scratch(), "c07c"), env=SAN_ENV, width=8)
+    outs = [[None] * len(ls) for _m, ls in batches]
+    for (exe, ls), (bi, i), (rc, out, err) in zip(jobs, where, res):
+        if rc != 0 or len(out) != len(ls):
+            bad = ls[len(out)] if len(out) < len(ls) else None
+            run.violation("crash:" + name, {"what": "moddrv died (rc=%s): sanitizer report, abort or signal" % rc,
+                                            "module": batches[bi][0]["text"], "command_line": (bad or "")[:4000], "stderr_tail": err[-2500:]})
+            out = out + ["CRASH"] * (len(ls) - len(out))
+        outs[bi][i:i + len(ls)] = out
+    return outs
 
 
 # ---------------------------------------------------------------- main
@@ -363,6 +586,10 @@ def model_part(ctx, items):
 def main(tier):
     run = Run("C07", tier)
     rng = Rng(run.seed)
+    quick = tier == "quick"
+    global ALL_K, ALL_SIZES
+    if not quick:
+        ALL_K, ALL_SIZES = 1500, 3000
     ok, out = coq_build()
     nthm, ndis, axioms, names, plog = obligations("C07") if ok else (0, 0, set(), [], out)
     gate = grep_gate()
@@ -371,30 +598,46 @@ def main(tier):
                                                "log_tail": (out if not ok else plog)[-2000:], "grep_gate": gate}, no_input=True)
     model = model_build()
     ctx = Ctx(run, model)
+    xm = hand_module("C07X", EXTRA_TEXT, ["EO", "PO", "NU", "SN", "RC", "SS", "FO", "I7", "SV", "BP", "IN", "Int12345"])
+    em = hand_module("C07E", EXT_TEXT, ["EX", "EC"])
+    dm = depth_module()
+    bm = boundary_module()
     try:
-        nm, nt, nv = (8, 5, 4) if tier == "quick" else (40, 6, 8)
+        nm, nt, nv = (8, 5, 4) if quick else (40, 6, 8)
         mods, cases = build_corpus(run, rng, nm, nt, nv, tier, tag="c07mods", moddrv_extra=INC)
-        xm = extra_module()
-        build_modules([xm], tag="c07x", moddrv_extra=INC)
+        build_modules([xm, em, dm, bm], tag="c07x", moddrv_extra=INC)
     except BuildError as e:
         run.violation("build", {"what": str(e)[-2500:]}, no_input=True)
         return run.finish("proof", (nthm, ndis))
-    for m in mods + [xm]:
+    allmods = mods + [xm, em, dm, bm]
+    for m in allmods:
         if not m.get("exe"):
             run.violation("build:module", {"what": "asn1c rejected a module or its output does not compile", "module": m["text"],
                                            "asn1c_out": m.get("asn1c_out", "")[-1500:], "build_log": m.get("build_log", "")[-1500:]})
-    # ---- the work list: (module, type, der, label, model bytes per syntax)
+    dbg('built')
+    # ---- the work list
     work = []
-    perm = 6 if tier == "quick" else 16          # MS0 has very many integer cases: keep a sample per type
+
+    def add(m, tn, der, label, mb, xv=None, big=False, depth=None, only=None, api_model=True):
+        work.append({"m": m, "tn": tn, "der": der, "label": label, "mb": mb, "xv": xv, "big": big, "depth": depth,
+                     "only": only, "api_model": api_model, "res": {}})
+
+    perm = 6 if quick else 16          # MS0 has very many integer cases: keep a sample per type
     seen_t = {}
+    nbig = 0
     for c in cases:
-        if len(c["der"]) > MAXHEX:
-            continue
+        big = len(c["der"]) > MAXHEX
+        if big:
+            nbig += 1
+            if nbig > (10 if quick else 60):
+                continue
         key = (c["mod"]["name"], c["tn"])
         seen_t[key] = seen_t.get(key, 0) + 1
-        if c["mod"]["name"] == "MS0" and seen_t[key] > perm:
+        if c["mod"]["name"] == "MS0" and seen_t[key] > perm and not big:
             continue
-        work.append((c["mod"], c["tn"], c["der"], "valid", {"der": c["der"], "uper": c["uper"], "oer": c["oer"]}))
+        env = dict(c["mod"]["defs"])
+        xv = xv_of(env[c["tn"]], parse_val(c["vs"]), env) if len(c["der"]) <= 20000 else None
+        add(c["mod"], c["tn"], c["der"], "valid", {"der": c["der"], "uper": c["uper"], "oer": c["oer"]}, xv=xv, big=big)
     # constraint-violating values: transported as DER (the BER decoder does not check constraints)
     inv = []
     for m in mods:
@@ -402,7 +645,7 @@ def main(tier):
             continue
         for tn, _t in m["defs"]:
             tree = m["trees"][tn]
-            for _ in range(2 if tier == "quick" else 5):
+            for _ in range(2 if quick else 5):
                 v = value(tree, rng)
                 vs = violate(tree, v, rng)
                 if vs:
@@ -411,71 +654,238 @@ def main(tier):
         lines = []
         for m, tn, ts, vs in inv:
             lines += ["der %s %s" % (ts, vs), "uper 0 %s %s" % (ts, vs), "oer %s %s" % (ts, vs)]
-        rcm, mo, me = run_lines(model, lines, timeout=600)
-        if rcm != 0 or len(mo) != len(lines):
-            raise RuntimeError("model driver failed: %s" % me[-500:])
+        mo = model_batch(ctx, lines)
+        need = [(i, x) for i, x in enumerate(inv) if "t" in x[2] and mo[3 * i] != "NONE"]
+        ro = model_batch(ctx, ["berdec %s %s" % (x[2], mo[3 * i]) for i, x in need]) if need else []
+        reord = {}
+        for (i, x), o in zip(need, ro):
+            f = o.split()
+            if f[0] == "OK":
+                reord[i] = f[2]
         for i, (m, tn, ts, vs) in enumerate(inv):
             d, u, o = mo[3 * i:3 * i + 3]
             if d != "NONE" and len(d) <= MAXHEX:
-                work.append((m, tn, d, "violating", {"der": d, "uper": u, "oer": o}))
+                env = dict(m["defs"])
+                add(m, tn, d, "violating", {"der": d, "uper": u, "oer": o}, xv=xv_of(env[tn], parse_val(reord.get(i, vs)), env))
     for tn, d in EXTRA_VALUES:
-        work.append((xm, tn, d, "extra", {}))
-    # ---- run
+        add(xm, tn, d, "extra", {})
+    dbg('corpus items %d' % len(work))
+    # ---- swept dimension: nesting depth (recursive types), every syntax
+    ddefs = depth_defs()
+    denv = dict(ddefs)
+    full_depths = list(range(1, 11)) if quick else list(range(1, 17))
+    all_depths = list(range(1, 41))
+    pend = []          # (module, tn, tree, value, kwargs) whose model encodings are asked for in one batch
+    for tn, _t in ddefs:
+        if not dm.get("exe"):
+            break
+        for d in all_depths:
+            if quick and d > 12 and (d + len(tn) + ord(tn[1])) % 2 != run.seed % 2 and d not in (16, 17, 32, 33, 40):
+                continue
+            v0 = depth_value(tn, d, rng)
+            tree = unrolled_tree(tn, v0, ddefs)
+            v = der_sorted_value(tree, v0)
+            pend.append((dm, tn, tree, v, dict(label="depth", xv=xv_of(denv[tn], v, denv), big=d not in full_depths, depth=d)))
+    # ---- swept dimension: the encoders' internal boundaries
+    benv = dict(bm["defs"])
+    if bm.get("exe"):
+        for tn, v0, tags in boundary_values(tier, rng):
+            tree = bm["trees"][tn]
+            v = der_sorted_value(tree, v0)
+            only = ["uper", "oer", "der"] if "per" in tags and quick else None
+            pend.append((bm, tn, tree, v, dict(label="boundary", xv=xv_of(benv[tn], v, benv), big="big" in tags, only=only)))
+        # asn_encode_to_new_buffer: totals 2^k-1, 2^k, 2^k+1 in every syntax
+        for syn in SYNS:
+            for k in range(4, 15 if quick else 18):
+                for dlt in (-1, 0, 1):
+                    v = newbuf_aim(2 ** k + dlt, syn)
+                    if v is None:
+                        continue
+                    tree = bm["trees"]["SQ"]
+                    small = 2 ** k <= 2048
+                    pend.append((bm, "SQ", tree, v, dict(label="target", xv=xv_of(benv["SQ"], v, benv) if small else None, big=not small,
+                                                        only=[syn], nomodel=not small, target=(syn, 2 ** k + dlt))))
+    lines = []
+    for m, tn, tree, v, kw in pend:
+        if kw.get("nomodel"):
+            continue
+        ts, vs = model_str(tree), val_str(v)
+        lines += ["der %s %s" % (ts, vs), "uper 0 %s %s" % (ts, vs), "oer %s %s" % (ts, vs)]
+    dbg('pend %d model lines %d' % (len(pend), len(lines)))
+    mo = model_batch(ctx, lines) if lines else []
+    dbg('pend model done')
+    j = 0
+    targets = []
+    for m, tn, tree, v, kw in pend:
+        der = py_der(tree, v).hex()
+        mb = {}
+        if not kw.get("nomodel"):
+            mb = {"der": mo[j], "uper": mo[j + 1], "oer": mo[j + 2]}
+            j += 3
+            if mb["der"] != der:
+                run.violation("harness:der", {"what": "the check's own DER encoder and the model's disagree", "type": tn, "model": mb["der"][:2000], "python": der[:2000]}, no_input=True)
+        add(m, tn, der, kw["label"], mb, xv=kw.get("xv"), big=kw.get("big", False), depth=kw.get("depth"), only=kw.get("only"),
+            api_model=kw["label"] != "target" or len(der) < 600)
+        if kw.get("target"):
+            work[-1]["target"] = kw["target"]
+    # ---- extension additions (open types: the encoders' temporary buffers)
+    if em.get("exe"):
+        ev = ext_values(tier)
+        lines = []
+        for tn, ety, vs, xv in ev:
+            lines += ["xder %s %s" % (ety, vs), "xuper 0 %s %s" % (ety, vs), "xoer %s %s" % (ety, vs)]
+        mo = model_batch(ctx, lines)
+        for i, (tn, ety, vs, xv) in enumerate(ev):
+            d, u, o = mo[3 * i:3 * i + 3]
+            if d in ("NONE", "BADCMD") or d.startswith("EXN"):
+                run.violation("harness:ext", {"what": "the extensibility model does not encode a value of the check", "ety": ety, "val": vs[:200], "model": d[:200]}, no_input=True)
+                continue
+            add(em, tn, d, "ext", {"der": d, "uper": u, "oer": o}, xv=xv, big=len(d) > 2000)
+    work = [w for w in work if w["m"].get("exe")]
     bym = {}
     for w in work:
-        if w[0].get("exe"):
-            bym.setdefault(w[0]["name"], []).append(w)
-    model_items = []
-    for mname, ws in bym.items():
-        m = ws[0][0]
-        lines = []
-        for (_m, tn, der, label, mb) in ws:
-            for syn in SYNS:
-                lines.append("sweep %s der %s %s" % (tn, der, syn))
-        out = run_mod(run, m, lines, "C07")
-        res = {}
-        lines2, idx2 = [], []
+        bym.setdefault(w["m"]["name"], []).append(w)
+    order = [m for m in allmods if m["name"] in bym]
+    dbg('work %d' % len(work))
+    # ---- phase 1: the fault-free trace of the big values (how many invocations, how many octets)
+    batches = []
+    for m in order:
+        ls = []
+        for w in bym[m["name"]]:
+            if w["big"]:
+                for syn in (w["only"] or SYNS):
+                    ls.append("trace %s der %s %s -1" % (w["tn"], w["der"], syn))
+        batches.append((m, ls))
+    outs = run_mods(ctx, batches, "C07")
+    for (m, ls), out in zip(batches, outs):
         i = 0
-        for wi, (_m, tn, der, label, mb) in enumerate(ws):
-            for syn in SYNS:
-                o = out[i]
+        for w in bym[m["name"]]:
+            if w["big"]:
+                w["ks"] = {}
+                w["skip"] = set()
+                for syn in (w["only"] or SYNS):
+                    h = kv(out[i])
+                    i += 1
+                    if out[i - 1].startswith("DECFAIL") or out[i - 1] in ("CRASH", "BADARG"):
+                        w["ks"][syn] = None
+                        continue
+                    if work_check(ctx, w, syn, ls[i - 1], out[i - 1]):
+                        w["skip"].add(syn)
+                    n = int(h.get("calls", "0")) if "DIED" not in out[i - 1] else 0
+                    if n <= ALL_K:
+                        w["ks"][syn] = None
+                    else:
+                        ks = set(range(24)) | set(range(n - 24, n)) | set(rng.below(n) for _ in range(40 if quick else 200))
+                        w["ks"][syn] = sorted(ks)
+    dbg('phase1 done')
+    # ---- phase 2: fault-free run + callback failing at every (big values: the chosen) invocation index
+    batches = []
+    for m in order:
+        ls = []
+        for w in bym[m["name"]]:
+            for syn in (w["only"] or SYNS):
+                if syn in w.get("skip", ()):
+                    continue
+                ks = w["ks"][syn] if w["big"] else None
+                ls.append("sweep %s der %s %s%s" % (w["tn"], w["der"], syn, "" if ks is None else " " + ranges(ks)))
+        batches.append((m, ls))
+    outs = run_mods(ctx, batches, "C07")
+    dbg('phase2 C done')
+    api_items, xer_items = [], []
+    batches2, idx2 = [], []
+    for (m, ls), out in zip(batches, outs):
+        i = 0
+        ls2, ix2 = [], []
+        for w in bym[m["name"]]:
+            tn, der, label = w["tn"], w["der"], w["label"]
+            for syn in (w["only"] or SYNS):
+                if syn in w.get("skip", ()):
+                    continue
+                o, line = out[i], ls[i]
                 i += 1
                 if o.startswith("DECFAIL") or o in ("CRASH", "BADARG"):
-                    if label == "valid" or o in ("CRASH", "BADARG"):
-                        run.violation("harness:decode", {"what": "transport DER not accepted", "module": m["text"], "type": tn, "der": der, "c": o}, no_input=True)
+                    if label != "violating" or o in ("CRASH", "BADARG"):
+                        run.violation("harness:decode", {"what": "transport DER not accepted", "module": m["text"], "type": tn, "der": der[:4000], "c": o}, no_input=True)
                     continue
-                r = check_sweep(ctx, m, tn, der, syn, o, mb.get(syn), label)
+                ks = w["ks"][syn] if w["big"] else None
+                r = check_sweep(ctx, w, syn, line, o, ks)
                 if r is None:
                     continue
-                ret, chunks = r
+                ret, errno, chunks = r
+                w["res"][syn] = r
                 total = sum(len(c) for c in chunks)
-                lines2.append("bufsweep %s der %s %s %d" % (tn, der, syn, total + 1))
-                idx2.append(("buf", tn, der, syn, ret, chunks, label))
-                lines2.append("newbuf %s der %s %s" % (tn, der, syn))
-                idx2.append(("new", tn, der, syn, ret, chunks, label))
-                uz = (syn == "uper" and ret == 1 and chunks == [b"\x00"] and (mb.get("uper") in ("00", None)) and label != "violating" and tn not in ("I7",))
-                head = kv(o.split(" | ")[0])
-                if total <= 64 or rng.chance(1, 4):
-                    model_items.append(({"module": m["text"], "type": tn, "der": der, "syntax": syn, "label": label}, syn, ret, head["errno"], chunks, uz))
-        out2 = run_mod(run, m, lines2, "C07")
-        for o, (kind, tn, der, syn, ret, chunks, label) in zip(out2, idx2):
+                if w.get("target") and w["target"][0] == syn:
+                    run.count("newbuf_aim_%s" % ("hit" if total == w["target"][1] else "miss"))
+                    if total != w["target"][1]:
+                        run.violation("harness:newbuf_target", {"what": "the value aimed at a total of %d octets in %s encodes to %d" % (w["target"][1], syn, total), "type": tn, "der": der[:400]}, no_input=True)
+                if total <= ALL_SIZES and (not w["big"] or w["label"] == "depth"):
+                    sizes = list(range(total + 2))
+                    ls2.append("bufsweep %s der %s %s %d" % (tn, der, syn, total + 1))
+                else:
+                    xs = set(range(0, 34)) | set(range(max(total - 20, 0), total + 2))
+                    off = 0
+                    bounds = []
+                    for c in chunks:
+                        off += len(c)
+                        bounds.append(off)
+                    for _ in range(24 if quick else 100):
+                        b = rng.choice(bounds) if bounds else 0
+                        xs.update([b - 1, b, b + 1])
+                    p2 = 64
+                    while p2 <= total:
+                        xs.update([p2 - 1, p2, p2 + 1])
+                        p2 *= 2
+                    for _ in range(16 if quick else 100):
+                        xs.add(rng.below(total + 1))
+                    sizes = sorted(x for x in xs if 0 <= x <= total + 1)
+                    ls2.append("bufat %s der %s %s %s" % (tn, der, syn, ranges(sizes)))
+                ix2.append(("buf", w, syn, ret, chunks, sizes))
+                ls2.append("newbuf7 %s der %s %s" % (tn, der, syn))
+                ix2.append(("new", w, syn, ret, chunks, None))
+                uz = (syn == "uper" and ret == 1 and chunks == [b"\x00"] and (w["mb"].get("uper") in ("00", None)) and label != "violating" and tn not in ("I7",))
+                rep = {"module": m["text"], "type": tn, "der": der[:4000], "syntax": syn, "label": label}
+                if w["api_model"] and total <= 4000 and rng.chance(*((1, 3) if total <= 64 else (1, 12)) if quick else (1, 2)):
+                    api_items.append((rep, syn, ret, errno, chunks, uz, total <= 100 and not w["big"]))
+                if syn in ("xer", "cxer") and w["xv"] is not None:
+                    if not (quick and w["depth"] and w["depth"] > 24 and len(chunks) > 5000 and w["depth"] != 40):
+                        xer_items.append((rep, 1 if syn == "cxer" else 0, tn, w["xv"], ret, errno, chunks, not w["big"]))
+        batches2.append((m, ls2))
+        idx2.append(ix2)
+    dbg('phase2 oracle done')
+    # ---- phase 3: asn_encode_to_buffer at every (big values: the chosen) size; asn_encode_to_new_buffer
+    outs2 = run_mods(ctx, batches2, "C07")
+    dbg('phase3 C done')
+    for (m, ls2), ix2, out2 in zip(batches2, idx2, outs2):
+        for line, o, (kind, w, syn, ret, chunks, sizes) in zip(ls2, out2, ix2):
             if kind == "buf":
-                check_bufsweep(ctx, m, tn, der, syn, o, ret, chunks, label)
+                check_bufsweep(ctx, w, syn, line, o, ret, chunks, sizes)
             else:
-                check_newbuf(ctx, m, tn, der, syn, o, ret, chunks, label)
-        # partially initialised structures
-        lines3 = []
+                check_newbuf(ctx, w, syn, line, o, ret, chunks)
+    dbg('phase3 oracle done')
+    # ---- phase 4: partially initialised structures
+    batches3 = []
+    for m in order:
+        ls = []
         per_type = {}
-        for (_m, tn, der, label, mb) in ws:
-            if label == "violating":
+        for w in bym[m["name"]]:
+            if w["label"] in ("violating", "target") or len(w["der"]) > 2 * MAXHEX:
                 continue
-            per_type[tn] = per_type.get(tn, 0) + 1
-            if per_type[tn] > (2 if tier == "quick" else 5):
+            key = w["tn"]
+            if w["depth"]:
+                # mutations deep inside a nested value as well as near the top
+                if w["depth"] not in (2, 5, 9, 12):
+                    continue
+                key = (w["tn"], w["depth"])
+            per_type[key] = per_type.get(key, 0) + 1
+            if per_type[key] > (2 if quick else 5):
                 continue
-            lines3.append("sites %s der %s" % (tn, der))
-        out3 = run_mod(run, m, lines3, "C07")
-        lines4 = []
-        for l, o in zip(lines3, out3):
+            ls.append("sites %s der %s" % (w["tn"], w["der"]))
+        batches3.append((m, ls))
+    outs3 = run_mods(ctx, batches3, "C07")
+    batches4 = []
+    for (m, ls), out3 in zip(batches3, outs3):
+        ls4 = []
+        for l, o in zip(ls, out3):
             f = o.split()
             if not f or not f[0].isdigit():
                 continue
@@ -483,31 +893,47 @@ def main(tier):
             _, tn, _, der = l.split()
             pick = list(range(ns))
             if ns > 8:
-                rng.shuffle(pick)
-                pick = pick[:8]
+                pick = sorted(set([0, ns - 1, ns - 2] + rng.shuffle(pick)[:6]))
             for s in pick:
-                lines4.append("mut %s der %s %d" % (tn, der, s))
-        for tn in sorted(set(w[1] for w in ws)):
-            lines4.append("zero %s" % tn)
-        out4 = run_mod(run, m, lines4, "C07")
-        for l, o in zip(lines4, out4):
+                ls4.append("mut %s der %s %d" % (tn, der, s))
+        for tn in sorted(set(w["tn"] for w in bym[m["name"]])):
+            ls4.append("zero %s" % tn)
+        batches4.append((m, ls4))
+    outs4 = run_mods(ctx, batches4, "C07")
+    for (m, ls4), out4 in zip(batches4, outs4):
+        for l, o in zip(ls4, out4):
             check_battery(ctx, m, l.split()[1], l, o)
+    dbg('phase4 done')
+    # ---- phase 5: the extracted model
     if nthm:
-        model_part(ctx, model_items)
+        lines, expect = model_lines_api(api_items, rng)
+        run_model(ctx, lines, expect, lambda l: "correspondence:AppApi(%s)" % l.split()[0],
+                  "the extracted model of the wrappers, fed with the C's fault-free trace, predicts a different result than the C produced")
+        dbg('api model done (%d lines)' % len(lines))
+        lines, expect = model_lines_xer(xer_items, rng)
+        dbg('xer model lines %d' % len(lines))
+        run_model(ctx, lines, expect, lambda l: "correspondence:XerEnc(%s,%s)" % (l.split()[0], "cxer" if l.split()[1] == "1" else "xer"),
+                  "the modelled XER encoder (Rt/XerEnc.v: ASN__CALLBACK accounting, ASN__TEXT_INDENT one invocation per level) run through the modelled wrappers differs from the C: chunk list, bytes or result")
+    dbg('model done')
+    if os.environ.get('VERIF_DEBUG'):
+        kinds = {}
+        for v in run.violations:
+            kinds[v['kind']] = kinds.get(v['kind'], 0) + 1
+        dbg('violation kinds: %s' % sorted(kinds.items()))
     tb = ["Coq 8.16.1 kernel; vm_compute for Examples",
           "axioms under Print Assumptions: " + (", ".join(sorted(axioms)) or "none (Closed under the global context)"),
-          "extraction: ExtrOcamlBasic only; OCaml 4.13.1; ocaml/drv_c07.ml",
+          "extraction: ExtrOcamlBasic only; OCaml 4.13.1; ocaml/drv_c07.ml (parser of named value trees)",
           "harness/moddrv.c + harness/moddrv_c07.inc (fork per encoder call; fault-injecting callback; descriptor walk for the mutations); gcc + ASan/UBSan",
-          "lib/modgen.py, lib/modcorpus.py; values reach the C as DER through ber_decode",
-          "the inner encoders' scripts are reconstructed from the C's own fault-free trace (chunk boundaries are observed, not predicted)"]
+          "lib/modgen.py, lib/modcorpus.py, lib/c07_util.py (value-directed unrolling of recursive types, the names the XER model is given, an own DER encoder for transport); values reach the C as DER through ber_decode",
+          "the inner encoders' scripts (DER, UPER, OER) are reconstructed from the C's own fault-free trace (chunk boundaries are observed, not predicted); the XER chunk boundaries ARE predicted by Rt/XerEnc.v"]
     return run.finish("proof", (nthm, ndis), trusted_base=tb,
                       checker_cmd="make -C /verif all && coqc -Q coq A1 coq/Props/Properties_C07.v",
-                      extra_cov={"theorems": names, "modules": len(mods) + 1,
-                                 "rule": "one case = (module, type, value, syntax, fault index k) or (…, buffer size) or (…, mutation site, syntax); every k in 0..calls-1 and every size in 0..n+1 for each value",
+                      extra_cov={"theorems": names, "modules": len(allmods),
+                                 "rule": "one case = (module, type, value, syntax, fault index k) or (…, buffer size) or (…, mutation site, syntax) or one model line; every k in 0..calls-1 and every size in 0..n+1 for values up to %d invocations / %d octets, a directed sample (ends, chunk boundaries, 2^j, random) above" % (ALL_K, ALL_SIZES),
                                  "traces_validated_against_impl": run.cov["evaluations"]},
-                      assumptions=["XER has no model encoder: its traces are checked by the oracle and the wrapper model only",
-                                   "allocation failure inside asn_encode_to_new_buffer is proved on the model only (not injected into the C)",
-                                   "values <= 200 bytes of DER"])
+                      assumptions=["allocation failure inside asn_encode_to_new_buffer is proved on the model only (not injected into the C)",
+                                   "XER model: INTEGER in the native range, the base algebra of lib/modgen.py (no DEFAULT, no ENUMERATED/REAL/strings other than OCTET STRING)",
+                                   "values above %d invocations / %d octets: sampled fault indices and buffer sizes" % (ALL_K, ALL_SIZES)])
 
 
 if __name__ == "__main__":
